@@ -45,6 +45,9 @@ def run(ctx):
         c = prog.cls(cname)
         from ..persist import _ctor_obj
         rule_P15(ctx, cname, c.methods['update'], c.methods['read'], _ctor_obj(c.methods['read']))
+    from ..pathrules import rule_T10
+    k10 = rule_T10(ctx)
+    ctx.require(k10 >= 3, 'T10 saw only %d checkpoint writes in run() (floor 3)' % k10)
     rule_P8(ctx)      # the emulator's hyper-parameters survive the round trip
     rule_K2(ctx)      # cached values never outlive the state they were computed from
     rule_F3(ctx)
